@@ -427,6 +427,26 @@ def check(ctx):
             good = close(Fraction(v), m, Fraction(1, 10**12)) if (isinstance(u.multiple, float) or isinstance(v, float)) else Fraction(v) == m
         if not good:
             ctx.violation("convert:%s" % w, "1 %s to %s" % (w, tgt), str(m), repr(v), "ka: `1 %s to %s`" % (w, tgt))
+    # the same prefixed spelling ABOVE and BELOW the `|` of a signature, in both orders within one process: what a prefixed
+    # spelling contributes depends on its exponent's sign at that use, not on how the spelling was used before
+    cand = [(w, c) for w, c in uniq if c[0] == "unique" and units[c[2]].offset == 0 and not isinstance(units[c[2]].multiple, float)
+            and one_identifier(w) and target_of(units[c[2]]) is not None]
+    rng.shuffle(cand)
+    half = ctx.n(60, 1200)
+    for idx, (w, c) in enumerate(cand[: 2 * half]):
+        u, m = units[c[2]], c[1]
+        tgt = target_of(u)
+        other = "s" if "s" not in (tgt, w) and u.quantity_vector != units[sorted(by_spelling["s"])[0]].quantity_vector else "kg"
+        num = ("1 %s to %s" % (w, tgt), m)
+        den = ("6 %s | %s to %s | %s" % (other, w, other, tgt), Fraction(6) / m)
+        for text, want in ((num, den) if idx < half else (den, num)):
+            st, v = R.value(text)
+            ctx.count("updown:" + text, bucket="pipeline/above-and-below")
+            if st != "ok" or isinstance(v, bool) or not isinstance(v, (int, Fraction, float)) or \
+                    (Fraction(v) != want if (text == num[0] and not isinstance(v, float)) else not close(Fraction(v), want, Fraction(1, 10**12))):
+                # (below the bar the factor is used with a negative exponent: C04 promises 1e-9 there, not exactness)
+                ctx.violation("updown:%s" % text, text + ("   (after `%s`)" % (num[0] if text == den[0] else den[0]) if (text == den[0]) == (idx < half) else ""),
+                              str(want), repr(v), "one process: `%s` then `%s`" % ((num[0], den[0]) if idx < half else (den[0], num[0])))
     # ratios through the pipeline
     for a, k, b in ref["ratios"]:
         if R.value("1 " + a)[0] == "ok" and R.value("1 " + b)[0] == "ok":
